@@ -1026,7 +1026,14 @@ pub fn generate(cfg: &GenCfg, rng: &mut Rng) -> MSpec {
         let is64 = f.mem64 && rng.chance(1, 4);
         let shared = f.threads && rng.chance(1, 4);
         let min = 1 + rng.below(2) + i as u64 % 2;
-        let max = if shared || rng.chance(1, 2) { Some(min + rng.below(4) + i as u64) } else { None };
+        let max = if is64 && !shared && rng.chance(1, 4) {
+            // a maximum beyond 32 bits (pages): legal for 64-bit memories
+            Some(0x1_0000_0000 + rng.below(100))
+        } else if shared || rng.chance(1, 2) {
+            Some(min + rng.below(4) + i as u64)
+        } else {
+            None
+        };
         Limits { min, max, shared, is64 }
     };
     let mk_tab = |rng: &mut Rng, i: usize| -> TableTy {
@@ -1049,7 +1056,9 @@ pub fn generate(cfg: &GenCfg, rng: &mut Rng) -> MSpec {
     for i in 0..nig {
         let ty = *rng.pick(&vts);
         let mutable = f.mutable_global && rng.chance(1, 3);
-        m.imports.push(Import { module: "env".into(), field: format!("g{}", i), kind: ImportKind::Global(GlobalTy { ty, mutable }) });
+        // the same (module, field) pair may be imported twice, also at another type
+        let field = if i > 0 && rng.chance(1, 4) { format!("g{}", rng.below(i)) } else { format!("g{}", i) };
+        m.imports.push(Import { module: "env".into(), field, kind: ImportKind::Global(GlobalTy { ty, mutable }) });
     }
     if rng.chance(1, 3) {
         rng.shuffle(&mut m.imports);
@@ -1329,6 +1338,11 @@ pub fn generate(cfg: &GenCfg, rng: &mut Rng) -> MSpec {
     if cfg.producers {
         m.producers = Some(gen_producers(rng));
     }
+    if cfg.customs && cfg.producers && rng.chance(1, 5) {
+        // a second producers section (the convention allows one; walrus reads the fields of both)
+        let second = vec![("language".to_string(), vec![("Zig".to_string(), "0.11".to_string())]), ("sdk".to_string(), vec![("wasi-sdk".to_string(), "20".to_string())])];
+        m.customs.push(CustomSpec { name: "producers".into(), data: crate::mspec::encode_producers(&second), before: if rng.bool() { 255 } else { 11 }, name_len_pad: 0 });
+    }
     if cfg.customs {
         gen_customs(&mut m, rng);
         if !cfg.names && !cfg.producers {
@@ -1447,6 +1461,23 @@ pub fn gen_names(m: &MSpec, rng: &mut Rng) -> NameSpec {
         if rng.chance(p, 6) {
             n.datas.push((i, format!("$data_{}", i)));
         }
+    }
+    // now and then the section names entities of one kind only (a name section with a single subsection)
+    if rng.chance(1, 6) {
+        let keep = rng.below(9);
+        let mut only = NameSpec::default();
+        match keep {
+            0 => only.module = n.module.clone().or(Some("only_module".to_string())),
+            1 => only.funcs = n.funcs.clone(),
+            2 => only.locals = n.locals.clone(),
+            3 => only.types = n.types.clone(),
+            4 => only.tables = (0..m.all_tables().len() as u32).map(|i| (i, format!("$tab_{}", i))).collect(),
+            5 => only.memories = (0..m.all_memories().len() as u32).map(|i| (i, format!("$mem_{}", i))).collect(),
+            6 => only.globals = (0..m.all_globals().len() as u32).map(|i| (i, format!("$glob_{}", i))).collect(),
+            7 => only.elems = (0..m.elems.len() as u32).map(|i| (i, format!("$elem_{}", i))).collect(),
+            _ => only.datas = (0..m.datas.len() as u32).map(|i| (i, format!("$data_{}", i))).collect(),
+        }
+        return only;
     }
     // stale entries of every other kind (an index past the last entity): each names nothing and must not cost
     // any other name; subsections walrus does not interpret
